@@ -17,7 +17,7 @@ from props.C02 import t_increments, node, NAMES, INC
 
 MANIFEST = dict(
     category="proof",
-    technique="clause (a): lemma over discharged contracts -- cut loop of the real feedback filter with the hypothesis 'no stamp in the span' (z3: correction branch unreachable, no set_pva/update_estimates), reset-before-use, identity of _correct_increments in the trace domain, contiguous batches (C09) and the integrator fold lemma (C02); clause (c): frame analysis over the AST of EstimationModel and the filters; clause (b): NOT decided (bounded relational stand-in), except for a decided necessary condition: both filters thread the corrections of one stamp sequentially, every sensor once at the stamp's own time",
+    technique="clause (a): lemma over discharged contracts -- cut loop of the real feedback filter with the hypothesis 'no stamp in the span' (z3: correction branch unreachable, no set_pva/update_estimates), reset-before-use, identity of _correct_increments in the trace domain, contiguous batches (C09) and the integrator fold lemma (C02); clause (c): frame analysis over the AST of EstimationModel and the filters; clause (b): NOT decided (bounded relational stand-in), except for a decided necessary condition: both filters thread the corrections of one stamp sequentially, every sensor once at the stamp's own time; Bounded stand-ins shared by all properties (labelled bounded, never counted as proved): the argument-form battery of the modules under contract (batches of 1 and 1200 rows, integer-typed values, labels / columns in other orders, extra labels); where the frame analysis finds state that outlives a call (a cache, a memo) the frame obligation becomes a dynamic purity contract against pristine process states; names the proofs replace by scipy contracts are checked to be bound to the library's functions (else a differential test).",
     text="(a) Proved: when no measurement time lies in [start, end) the correction branch of the real loop body is unreachable for every schedule and time_step, so the integrator is only ever driven by integrate(batch) with contiguous batches of increments that _correct_increments returns unchanged (after reset_estimates the transform is the literal identity and the bias literal zeros; in the trace domain the corrected cells are the input cells themselves, for Series and DataFrame forms and every enabled subset of model states); by C02's fold lemma the trajectory is bit-identical to a single integrate call. (c) Proved by frame reasoning: the only sensor-model attributes written after construction are transform and bias, both overwritten by reset_estimates before any read in either filter; the filters store nothing on the model objects. (b) The second-order agreement of the two filters relates two whole programs in a small-error limit; no contract within reach states it. It is exercised by a bounded relational run only and is not claimed as proved.",
     note="A2, A4; LAPACK solve(I,b)=b exactly (assumed, bounded-checked natively); C02 and C09 obligations are prerequisites (re-run in their own checks); clause (b) undecided by this technique -- stand-in with three error scales on one simulated scenario.",
 )
